@@ -1,9 +1,62 @@
 """C15 check configuration (data only)."""
+import importlib.util
+import os
+import re
+import subprocess
+import time
+
 from propbase import KERNEL, HARNESS
 
+_root = os.path.dirname(os.path.dirname(os.path.abspath(__file__)))
+
+
+def _load(name):
+    spec = importlib.util.spec_from_file_location("translate_" + name, os.path.join(_root, "translate", name + ".py"))
+    mod = importlib.util.module_from_spec(spec)
+    spec.loader.exec_module(mod)
+    return mod
+
+
+_dfa = _load("dfa")
+_c15prod = _load("c15prod")
+
+
+def prod_model_agreement(ctx):
+    """The production NFAs through the MODEL of compile (Automata/Compile.v): the DFA the model
+    computes must equal the production DFA state for state (same numbering).  utf8 and command
+    always; event (about 4 minutes of vm_compute on unary state ids) in the thorough tier."""
+    names = ["utf8", "command"] + (["event"] if ctx["tier"] == "thorough" else [])
+    d = os.path.join(ctx["build"], "c15prod")
+    os.makedirs(d, exist_ok=True)
+    src = "From Coq Require Import List NArith.\nFrom SNT Require Import Corr.C15Prod Gen.ProdNFA Gen.ProdDFA.\n"
+    for nm in names:
+        src += "Eval vm_compute in (prod_agree 4096 (Nat.mul 400 400) %s_nfa_data %s_data).\n" % (nm, nm)
+    path = os.path.join(d, "prod_agree.v")
+    with open(path, "w") as f:
+        f.write(src)
+    t0 = time.time()
+    p = subprocess.run(["coqc", "-noglob", "-Q", os.path.join(ctx["coq"], "theories"), "SNT", path], cwd=d,
+                       stdout=subprocess.PIPE, stderr=subprocess.STDOUT, text=True, timeout=3000)
+    codes = re.findall(r"=\s*(\d+)%N", p.stdout)
+    res = {"violations": [], "coverage": {"production_automata_through_model": names}, "notes": [
+        "model compile vs production DFA (%s): codes %s, %.1fs" % (", ".join(names), codes, time.time() - t0)]}
+    if p.returncode != 0 or len(codes) != len(names):
+        res["violations"].append({"kind": "broken-correspondence", "what": "cannot evaluate the model of compile on the production NFAs: " + p.stdout[-800:], "case": {}})
+        return res
+    what = {"1": "start state", "2": "number of states", "3": "transition table", "4": "accepting/terminal/tags"}
+    for nm, c in zip(names, codes):
+        if c != "0":
+            res["violations"].append({"kind": "broken-correspondence",
+                                      "what": "the model of NFA::compile run on the production %s NFA does not reproduce the production DFA (%s; code %s)" % (nm, what.get(c, "model panic/fuel"), c),
+                                      "case": {"automaton": nm}})
+    return res
+
+
 PROP = {'gen': [],
+ 'pre_coq': [_dfa.pre_coq, _c15prod.pre_coq],
+ 'extra': [prod_model_agreement],
  'coq_props': ['theories/Props/C15.vo'],
- 'coq_corr': ['theories/Corr/C15Corr.vo'],
+ 'coq_corr': ['theories/Corr/C15Corr.vo', 'theories/Corr/C15Prod.vo'],
  'props_file': 'theories/Props/C15.v',
  'props_module': 'Props.C15',
  'corr_check': 'SNT.Corr.C15Corr.c15_check (model Automata/{NFA,Build,Compile}.v vs surf_n_term::automata::{NFA, DFA}: NFA graph from '
@@ -15,7 +68,10 @@ PROP = {'gen': [],
                'iff the stop state is reachable, carries exactly the tags of the reachable tagged states and is terminal only if no '
                'byte has a transition (C15_compile, C15_compile_total); hence DFA::matches = expression matches (C15_main, '
                'C15_main_unconditional), terminal/dead only if no extension matches (C15_terminal_dead), tags of a tagged choice = tags '
-               'of the matching alternatives (C15_tags). The model is tied to the code by a differential run: NFA graph (Debug output), '
+               'of the matching alternatives for expressions of the tagged-choice shape only (C15_tags_partial; for tags anywhere the '
+               'NFA-level law C15_tags_reachable); each production DFA of decoder.rs, as dumped on this run, is the subset construction '
+               'of the production NFA dumped before compile (C15_production_event/command/utf8: verified certificate checker, translation '
+               'validation). The model is tied to the code by a differential run: NFA graph (Debug output), '
                'DFA (canonical enumeration), acceptance/terminal/tags after every short string and guided long strings, with a '
                'verified derivative matcher as property predicate.',
  'level_note': 'Trusted: Coq kernel + vm_compute; hand-written model (BTreeMap<NFAStateId,_> as a list indexed by id: ids are dense by '
@@ -32,5 +88,10 @@ PROP = {'gen': [],
                   'hand-written model Automata/NFA.v, Build.v, Compile.v of src/automata.rs, tied to the code by the correspondence run '
                   '(NFA graph, DFA, observations)',
                   'specification Automata/Regex.v: textbook denotation of the expressions',
+                  'verif-hooks verif::dump_nfa / dump_dfa / NFA::verif_ends, harness tool c15prod (DOT parser), translate/c15prod.py and '
+                  'translate/dfa.py (Gen/ProdNFA.v, Gen/ProdDFA.v); the subset certificates are NOT trusted (checked in Coq)',
                   HARNESS],
- 'assumptions': ['symbols are bytes (below 256)']}
+ 'assumptions': ['symbols are bytes (below 256)',
+                 'production theorems: the NFA text returned by the add-only hook verif::dump_nfa is the NFA that MatcherAutomata::new / '
+                 'utf8_nfa pass to compile (the hook repeats the ten lines of MatcherAutomata::new; a divergence shows as a failed '
+                 'certificate check or a model/production DFA disagreement)']}
